@@ -156,12 +156,16 @@ def c09_3(ctx):
     res = resolver(ctx, cs, inline=False)
     ins = [n for n in walk_no_nested(cs.node) if isinstance(n, ast.Assign) and isinstance(n.targets[0], ast.Subscript)
            and unparse(n.targets[0].value) == 'self._symbols']
-    if not ins:
+    sd = [c for c in walk_no_nested(cs.node) if isinstance(c, ast.Call) and unparse(c.func) == 'self._symbols.setdefault']
+    if not ins and not sd:
         raise AnalysisError('create_symbol no longer inserts into self._symbols')
     for n in ins:
         cl = facts_at(ctx, cs, n, res)
         ctx.check(clause_implies(cl, lit_cmp(ctx, cs, 'name not in self._symbols', res)) and unparse(n.targets[0].slice) == 'name',
                   'register:duplicate-check', cs.site(n), 'a symbol is stored under its name only if that name is not yet defined', describe_facts(cl))
+    for c in sd:
+        ctx.check(unparse(c.args[0]) == 'name', 'register:duplicate-check', cs.site(c),
+                  'a symbol is stored under its name only if that name is not yet defined', f'{unparse(c)} (setdefault keeps an existing entry)')
     # the other branch aborts
     g = ctx.cfg(cs)
     raises = [n for n in walk_no_nested(cs.node) if isinstance(n, ast.Raise) or (isinstance(n, ast.Expr) and 'sys.exit' in unparse(n))]
@@ -186,6 +190,25 @@ def c09_3(ctx):
     for f, what in ((init, 'configuration'), (cli, 'command line'), (dsl, '#define')):
         sites = calls_to(ctx, f, {PP + '.create_symbol'})
         ctx.check(bool(sites), f'register:source:{what}', f.site(), f'{what} symbols are registered through create_symbol', 'no call')
+    # the replacement text reaches the symbol unchanged from each source
+    okv = {'configuration': ("symbol_def.get('value', '')", "symbol_def['value']", "symbol_def.get('value')", "symbol_def.get('value', None)"),
+           'command line': ('value.strip()', 'value', 'None'),
+           '#define': ('define_match.group(2)', 'None')}
+    for f, what in ((init, 'configuration'), (cli, 'command line'), (dsl, '#define')):
+        for node, callee in calls_to(ctx, f, {PP + '.create_symbol'}):
+            b = bind_args(node, callee)
+            v = unparse(b.get('value')) if b.get('value') is not None else 'None'
+            ctx.check(v in okv[what], f'register:value-unchanged:{what}', f.site(node),
+                      f'the {what} replacement text is handed to the symbol as given (an absent/empty value stays empty)',
+                      f'value argument {v}')
+    ps = ctx.repo.func('bespokeasm.assembler.preprocessor.symbol.PreprocessorSymbol.__init__')
+    from engine.helpers import self_attr_stores
+    stv = self_attr_stores(ps.node, '_value')
+    ctx.check(len(stv) == 1 and unparse(stv[0][2]) in ("value if value is not None else ''", "'' if value is None else value", "value or ''"),
+              'register:none-is-empty', ps.site(), 'a symbol without a value is replaced by the empty text', '; '.join(unparse(x[0]) for x in stv))
+    pv = ctx.repo.func('bespokeasm.assembler.preprocessor.symbol.PreprocessorSymbol.value')
+    rr = returns(pv)
+    ctx.check(len(rr) == 1 and unparse(rr[0].value) == 'self._value', 'register:value-getter', pv.site(), 'symbol.value is the stored text', '; '.join(unparse(r) for r in rr))
     # ValueError -> exit where caught
     for f in (init, dsl):
         for t in ast.walk(f.node):
@@ -317,6 +340,18 @@ MUTANTS = [
                 sys.exit(f'ERROR - {line_id}: Preprocessor symbol {define_match.group(1)} is defined multiple times.')''', '''            except ValueError:
                 self._symbol = preprocessor.get_symbol(define_match.group(1))''', 'C09.3'),
     V('c09-no-fixpoint', _P, '            return self.resolve_symbols(line_id, line_str, updated_resolved_symbols)', '            return line_str', 'C09.1'),
+]
+MUTANTS += [
+    V('c09-dup-equal-accepted', _P, '''        if name not in self._symbols:
+            symbol = PreprocessorSymbol(name, value, line_id)
+            self._symbols[name] = symbol
+            return symbol
+        else:
+            raise ValueError(f'Symbol {name} already exists')''', '''        symbol = PreprocessorSymbol(name, value, line_id)
+        if self._symbols.setdefault(name, symbol) != symbol:
+            raise ValueError(f'Symbol {name} already exists')
+        return symbol''', 'C09.3'),
+    V('c09-config-value-str', _P, "self.create_symbol(symbol_def['name'], symbol_def.get('value', ''))", "self.create_symbol(symbol_def['name'], str(symbol_def.get('value', '')))", 'C09.3'),
 ]
 TWINS = [
     V('c09-t-fstring-pattern', _P, "r'\\b' + re.escape(s) + r'\\b',", "rf'\\b{re.escape(s)}\\b',"),
